@@ -1,4 +1,4 @@
 CONSTANTS MaxRounds = 60 Family = "full"
 INIT Init
 NEXT Next
-INVARIANTS RoundsBounded StackOK DonePinsOK DoneLaws Emit
+INVARIANTS RoundsBounded StackOK DonePinsOK DoneLaws DoneLawsNoRepin Emit
